@@ -162,6 +162,24 @@ def pcfg_job(prop, seed, n, dfs_share=0.25):
     return {"episodes": eps}
 
 
+def pnull_job(prop, seed, n, deep=False):
+    """the family of conditional-nullability chains (paramgen.nullable_family): n members drawn at random (all of them when
+    n is None); only the initial mask and accepting flag and the state after each first byte are looked at"""
+    from . import paramgen
+    rng = random.Random(f"{prop}-pnull-{seed}")
+    members = [g for k in (2, 3, 4) for g in paramgen.nullable_family(k)]
+    if n is not None and n < len(members):
+        members = rng.sample(members, n)
+    eps = []
+    for i, g in enumerate(members):
+        ab = sorted(set(paramgen.alphabet(g)) | {122})
+        voc = vocabs.small_exact(ab, [], 0)
+        eps.append({"gid": f"pnull:{i}", "mode": prop, "seed": 1, "steps": 0, "gram": {"kind": "lark", "text": paramgen.lark_text(g)},
+                    "cfgs": [{"vocab": voc, "vid": 0, "slices": []}], "w": {}, "log_vocab": 1,
+                    "init_extra": {"pcfg": paramgen.spec_json(g)}, "script": [["dfs", 2, list(range(len(ab))), 40]] if deep else [["mask", 0], ["acc", 0]]})
+    return {"episodes": eps}
+
+
 W_TOK = {"mask": 100, "fft_side": 100, "acc": 80, "status": 10, "rollback": 8, "commit_try": 0, "commit_batch": 0,
          "bad_token": 60, "clone_mask": 10}
 
